@@ -80,6 +80,16 @@ CHECKS = {
             'formats up to 6 bits exhaustively.',
             'TLC evaluation of exact scaled-integer references over complete operand tables recorded from the real simulator',
             'DESIGN.md section 4, C14'),
+    'C09': ('model_checking',
+            'For every configuration of every sequential block (register variants, toggle register, counters, delay line, pipeline '
+            'stage, bidirectional shift register, stack, edge detector, clock divider, synchronous memory) TLC explores the complete '
+            'reachable graph of the documented reference machine (SeqLib.tla) under all inputs at every edge and emits one input '
+            'history per (state, input) transition; each is replayed on the real block from power-up with outputs observed before and '
+            'after every edge and judged by TLC (Trace_Seq); seeded random histories of 200-1000 edges at 4-16 bits likewise.',
+            'reference machines transcribed from the documentation; 1-bit control wires; the observation before the first edge '
+            '(power-up) is not judged; stack push+pop together and pop on empty are unconstrained.',
+            'TLC exploration of reference state machines with transition-covering replay into py4hw and TLC trace validation',
+            'DESIGN.md section 4, C09'),
 }
 
 PENDING = {}
